@@ -210,8 +210,10 @@ def main(tier, seed):
                       "outcomes": OUTCOMES if rng.random() < 0.5 else rng.sample(OUTCOMES, 4)})
     nb = 16 if q else 64
     batches = [{"cases": cases[i::nb], "seed": seed * 17 + i} for i in range(nb)]
-    for i in range(3 if q else 16):
-        batches.append({"real": [{"kind": "app", "seed": seed * 389 + i * 23 + j, "judge": "dispatch"} for j in range(1 if q else 4)]})
+    for i in range(3 if q else 40):
+        # one execution per worker process: Bromelia.run() leaves a Manager and a worker process behind that a second run in the
+        # same interpreter cannot share
+        batches.append({"real": [{"kind": "app", "seed": seed * 389 + i * 23, "judge": "dispatch"}]})
     acc = harness.run_workers("checks.c13_dispatch", "run_batch", batches, 3000)
     return harness.finish(PROP, tier, seed, "exploration", acc, RULE,
                           ["workers are in-process (fake manager, never started as processes); the connection layer below a Worker is a recording stub",
